@@ -196,7 +196,7 @@ impl Memory {
                 for i in 1..(bits / 8) {
                     value = il::Expression::or(
                         il::Expression::shl(value, il::expr_const(8, bits)).unwrap(),
-                        il::expr_const(self.get8(address + i as u64)? as u64, bits),
+                        il::expr_const(self.get8(address.checked_add(i as u64)?)? as u64, bits),
                     )
                     .unwrap();
                 }
@@ -206,7 +206,7 @@ impl Memory {
                 for i in 1..(bits / 8) {
                     value = il::Expression::or(
                         il::Expression::shl(
-                            il::expr_const(self.get8(address + i as u64)? as u64, bits),
+                            il::expr_const(self.get8(address.checked_add(i as u64)?)? as u64, bits),
                             il::expr_const((i * 8) as u64, bits),
                         )
                         .unwrap(),
@@ -238,11 +238,15 @@ impl Memory {
             .map(|(address, section)| (*address, section.len()))
             .collect::<Vec<(u64, usize)>>();
 
+        // Exclusive ends are computed in u128: a region may end exactly at 2^64
+        let end = address as u128 + data.len() as u128;
+
         // Adjust overlapping memory sections
         for al in als {
-            let (a, l) = (al.0, al.1 as u64);
-            if a < address && a + l > address {
-                if a + l <= address + data.len() as u64 {
+            let a = al.0;
+            let a_end = a as u128 + al.1 as u128;
+            if a < address && a_end > address as u128 {
+                if a_end <= end {
                     let new_length = (address - a) as usize;
                     self.sections
                         .get_mut(&a)
@@ -256,7 +260,7 @@ impl Memory {
                         })
                         .truncate(new_length);
                 } else {
-                    let offset = address + data.len() as u64 - a;
+                    let offset = (end - a as u128) as u64;
                     let split = self
                         .sections
                         .get_mut(&a)
@@ -282,15 +286,13 @@ impl Memory {
                             )
                         })
                         .permissions();
-                    self.sections.insert(
-                        address + data.len() as u64,
-                        Section::new(split, permissions),
-                    );
+                    self.sections
+                        .insert(end as u64, Section::new(split, permissions));
 
                     let new_length = (address - a) as usize;
                     self.sections.get_mut(&a).unwrap().truncate(new_length);
                 }
-            } else if a >= address && a + l <= address + data.len() as u64 {
+            } else if a >= address && a_end <= end {
                 if !self.sections.contains_key(&a) {
                     panic!(
                         "About to remove 0x{:x} from sections in \
@@ -300,11 +302,8 @@ impl Memory {
                     );
                 }
                 self.sections.remove(&a);
-            } else if a >= address
-                && a < address + data.len() as u64
-                && a + l > address + data.len() as u64
-            {
-                let offset = address + data.len() as u64 - a;
+            } else if a >= address && (a as u128) < end && a_end > end {
+                let offset = (end - a as u128) as u64;
                 let data_len = self.sections.get(&a).unwrap().data.len() as u64;
                 if offset > data_len {
                     panic!("offset 0x{:x} is > data.len() 0x{:x}", offset, data_len);
@@ -328,10 +327,8 @@ impl Memory {
                     })
                     .permissions();
                 self.sections.remove(&a);
-                self.sections.insert(
-                    address + data.len() as u64,
-                    Section::new(split, permissions),
-                );
+                self.sections
+                    .insert(end as u64, Section::new(split, permissions));
             }
         }
 
@@ -342,7 +339,7 @@ impl Memory {
     fn section_address(&self, address: u64) -> Option<u64> {
         let mut sections = self.sections.range((Included(0), Included(address)));
         if let Some((section_address, section)) = sections.next_back() {
-            if *section_address <= address && *section_address + section.len() as u64 > address {
+            if *section_address <= address && address - *section_address < section.len() as u64 {
                 return Some(*section_address);
             }
         }
